@@ -191,6 +191,7 @@ fn run(sc: &Scenario, cx: &mut Cx) -> CaseResult {
                 continue;
             }
         }
+        crate::engine::heartbeat();
         let idx = trace.iter().position(|l| l.key == key).unwrap();
         let res = check_point(&base, sc, cx, &key, torn, &mut n);
         evals += 1;
